@@ -199,8 +199,44 @@ func (fc *FuncCtx) boxAny(v Term) Term {
 	}
 	anyS := fc.Sorts.declUnint("Any")
 	fn := "box_" + mangle(v.Sort.SMT())
-	fc.declareFun(fn, []*Sort{v.Sort}, anyS)
+	if !fc.declSet[fn] {
+		fc.declareFun(fn, []*Sort{v.Sort}, anyS)
+		// structural equality on a slice-free sort is plain equality (the only values struct_eq identifies
+		// beyond identity are nil and empty slices)
+		if sf := fc.E.CS.SpecFuns["struct_eq"]; sf != nil && fc.sliceFree(v.Sort, map[string]bool{}) {
+			fc.declareSpecFun(sf, nil)
+			fc.addAxiom(fmt.Sprintf("(forall ((a %s) (b %s)) (! (= (struct_eq (%s a) (%s b)) (= a b)) :pattern ((struct_eq (%s a) (%s b)))))", v.Sort.SMT(), v.Sort.SMT(), fn, fn, fn, fn))
+			fc.Assumed["struct_eq on values without slices is plain equality (definition of the specification function)"] = true
+		}
+	}
 	return App(anyS, fn, v)
+}
+
+// sliceFree: values of this sort contain no slices, maps, function values or interface values outside the
+// union encoding.
+func (fc *FuncCtx) sliceFree(s *Sort, seen map[string]bool) bool {
+	switch s.Kind {
+	case KInt, KBool, KString:
+		return true
+	case KData:
+		if seen[s.Name] {
+			return true
+		}
+		seen[s.Name] = true
+		d := fc.Sorts.dts[s.Name]
+		if d == nil {
+			return false
+		}
+		for _, ct := range d.Ctors {
+			for _, f := range ct.Fields {
+				if !fc.sliceFree(f.Sort, seen) {
+					return false
+				}
+			}
+		}
+		return true
+	}
+	return false
 }
 
 func (fc *FuncCtx) evalBuiltin(name string, call *ast.CallExpr, st *St) []Term {
